@@ -103,6 +103,12 @@ def cases(tier, seed):
             for j in range(1 if not T else 3):
                 cs.append({'gen': 'solve', 'cls': 'lap', 'N': N, 'RB': [1] * (len(N) + 1), 'Rb': [1] + [2] * (len(N) - 1) + [1], 'rhs': 'random', 'cfac': 1.0, 'shift': 0.0,
                            'eps': 1e-10, 'vseed': 777 + j, 'prec': prec, 'max_full': 0, 'ls': ls, 'x0': 'none', 'sidx': j})
+    # directed (defect #43): tiny right-hand sides with preconditioned GMRES local solves on small Laplacian-like systems - the first local tolerance is far below
+    # machine precision relative to the initial local residual
+    for i in range(12 if tier == 'quick' else 60):
+        cs.append({'gen': 'solve', 'cls': 'lap', 'N': [[3, 4, 2, 2], [4, 3, 3], [2, 5, 2, 3]][i % 3], 'RB': [[1, 4, 3, 2, 1], [1, 3, 2, 1], [1, 2, 3, 2, 1]][i % 3],
+                   'Rb': [[1, 2, 4, 3, 1], [1, 3, 3, 1], [1, 2, 2, 2, 1]][i % 3], 'rhs': 'random', 'cfac': 12.0, 'shift': 0.0, 'band': 1, 'eps': [2.3e-7, 1e-9, 1e-5][i % 3],
+                   'vseed': 925323160042 + 1000 * i, 'prec': ['c', 'r'][i % 2], 'max_full': 0, 'ls': 1, 'x0': 'none', 'sidx': 0, 'bscale': [1e-24, 1e-22, 1e-30, 1e-26][i % 4]})
     return cs
 
 
@@ -193,7 +199,7 @@ def build_system(case, ctx, g):
     if layout in ('permuted-views', 't().t()'):
         b = torchtt.TT([c.permute(2, 1, 0).contiguous().permute(2, 1, 0) for c in b.cores])
     # overall magnitude of the right-hand side (the contract is relative: ||Ax-b|| <= C eps ||b|| at 1e-15 as at 1)
-    bscale = [1.0, 1.0, 1.0, 1e-15, 1e8, 1e-8][(case['vseed'] // 7) % 6]
+    bscale = case.get('bscale') or [1.0, 1.0, 1.0, 1e-15, 1e8, 1e-8, 1e16, 1e-24][(case['vseed'] // 7) % 8]
     if bscale != 1.0:
         b = torchtt.TT([c * bscale if k == 0 else c for k, c in enumerate(b.cores)])
         if case['rhs'] == 'image':
